@@ -178,7 +178,7 @@ func init() {
 			case 1:
 				useOld = false
 			case 2:
-				useOld = p.decide(2, nil) == 0
+				useOld = p.decideCtl(2) == 0
 			}
 		}
 		if useOld {
